@@ -274,6 +274,23 @@ def t_ctxmod(task):
                         g = yi % x
                         if g._mpf_ != w:
                             acc.violation(['ctx', 'int%', yi, s, p], '%d %% %s at prec %d = %s want %s' % (yi, s, p, g._mpf_, w), op='mod', kind='ctx-int')
+            # integer operands whose odd part is longer than the precision (they must not be rounded before the reduction), large dividends
+            bigx = [Q.from_int_exact(v) for v in (1 << 120, (1 << 120) + (1 << 67), ((1 << 61) + 1) * 7, -((1 << 90) + 1), 10 ** 40 + 1)] + [Q.mk(0, (1 << 70) + 1, -3), Q.mk(1, (1 << 64) + 3, -10)]
+            for s in bigx:
+                x = mp.make_mpf(s)
+                for yi in ((1 << 60) + 1, -((1 << 70) + 3), 10 ** 30 + 7, 3 ** 50, (1 << 53) + 1, 2 ** 35 * 3 ** 30):
+                    N, E = ex_mod(s, Q.from_int_exact(yi))
+                    w = Q.round_q(N, 1, p, 'n'); w = w if w == fzero else (w[0], w[1], w[2] + E, w[3])
+                    acc.evals += 1; acc.nontrivial += 1
+                    g = x % yi
+                    if g._mpf_ != w:
+                        acc.violation(['ctx', '%bigint', s, yi, p], '%s %% %d at prec %d = %s want %s' % (s, yi, p, g._mpf_, w), op='mod', kind='ctx-int')
+                    N, E = ex_mod(Q.from_int_exact(yi), s)
+                    w = Q.round_q(N, 1, p, 'n'); w = w if w == fzero else (w[0], w[1], w[2] + E, w[3])
+                    acc.evals += 1; acc.nontrivial += 1
+                    g = yi % x
+                    if g._mpf_ != w:
+                        acc.violation(['ctx', 'bigint%', yi, s, p], '%d %% %s at prec %d = %s want %s' % (yi, s, p, g._mpf_, w), op='mod', kind='ctx-int')
         acc.sample(['ctx', '%', xs[5], ys[7], 53])
     finally:
         mp.prec = 53
